@@ -1,157 +1,2 @@
-// @generated by gen/c20gen.py - one receiver module per line
-#![allow(unused_macros)]
-// the receivers spell std through this alias, so that every `::`-rooted path in emitted code is darling's own
-pub use ::std as ustd;
-#[allow(non_camel_case_types, non_snake_case, unused_imports, dead_code)] pub mod m0 {  fn ca(v: R0) -> ::darling::Result<R0> { ::darling::export::Ok(v) } #[derive(::darling::FromMeta)] #[darling(rename_all = "lowercase", allow_unknown_fields, and_then = ca)] pub struct R0 { #[darling(multiple)] pub default: crate::ustd::vec::Vec<crate::ustd::string::String>, #[darling(multiple)] pub flag: crate::ustd::vec::Vec<crate::ustd::string::String>, #[darling(multiple, rename = "type")] pub len: crate::ustd::vec::Vec<bool>, pub inner: f64 } }
-#[allow(non_camel_case_types, non_snake_case, unused_imports, dead_code)] pub mod m1 {   #[derive(::darling::FromMeta)] #[darling(rename_all = "camelCase")] pub struct R1 { #[darling(rename = "r_val")] pub val: super::m0::R0, pub item: super::m0::R0, #[darling(rename = "r_skip")] pub skip: ::darling::export::syn::Path } }
-#[allow(non_camel_case_types, non_snake_case, unused_imports, dead_code)] pub mod m2 {  fn cm(v: R2) -> R2 { v } #[derive(::darling::FromMeta)] #[darling(rename_all = "SCREAMING_SNAKE_CASE", map = cm)] pub struct R2 { #[darling(flatten)] pub identity: super::m0::R0 } }
-#[allow(non_camel_case_types, non_snake_case, unused_imports, dead_code)] pub mod m3 {   #[derive(::darling::FromMeta)] pub struct R3<T> { pub some: super::m0::R0, pub inner: ::darling::export::syn::Path, #[darling(flatten)] pub none: super::m1::R1, #[darling(rename = "y-z")] pub errors: crate::ustd::boxed::Box<u8>, #[darling(skip)] pub phantom_t: crate::ustd::marker::PhantomData<T> } }
-#[allow(non_camel_case_types, non_snake_case, unused_imports, dead_code)] pub mod m4 {   #[derive(::darling::FromMeta)] #[darling(allow_unknown_fields)] pub struct R4<T> { #[darling(flatten)] pub r#struct: crate::ustd::boxed::Box<T>, #[darling(rename = "y-z")] pub items: super::m1::R1, pub body: f64 } }
-#[allow(non_camel_case_types, non_snake_case, unused_imports, dead_code)] pub mod m5 {  fn cm(v: R5) -> R5 { v } #[derive(::darling::FromMeta)] #[darling(map = cm)] pub struct R5 { pub beta: super::m1::R1 } }
-#[allow(non_camel_case_types, non_snake_case, unused_imports, dead_code)] pub mod m6 { #[allow(dead_code)] pub struct Ok; #[allow(dead_code)] pub struct Err; #[allow(dead_code)] pub struct Some; #[allow(dead_code)] pub struct None; fn cm(v: R6) -> R6 { v } #[derive(::darling::FromMeta)] #[darling(rename_all = "snake_case", map = cm)] pub struct R6 { pub e: crate::ustd::collections::HashMap<crate::ustd::string::String, u8>, #[darling(rename = "Q")] pub default: crate::ustd::collections::HashMap<crate::ustd::string::String, u8>, pub enum_check: ::darling::util::SpannedValue<u8> } }
-#[allow(non_camel_case_types, non_snake_case, unused_imports, dead_code)] pub mod m7 { #[allow(unused_macros)] macro_rules! vec { ($($t:tt)*) => { compile_error!("the receiver's own vec! was used") } } #[allow(unused_macros)] macro_rules! format { ($($t:tt)*) => { compile_error!("the receiver's own format! was used") } }  #[derive(::darling::FromMeta)] #[darling(rename_all = "snake_case")] pub struct R7 { #[darling(rename = "type")] pub errors: crate::ustd::option::Option<crate::ustd::string::String>, #[darling(rename = "Q")] pub some: crate::ustd::option::Option<crate::ustd::string::String>, pub input: super::m5::R5, pub field: super::m6::R6, pub alpha: ::darling::util::SpannedValue<u8> } }
-#[allow(non_camel_case_types, non_snake_case, unused_imports, dead_code)] pub mod m8 { #[allow(dead_code)] pub struct Ok; #[allow(dead_code)] pub struct Err; #[allow(dead_code)] pub struct Some; #[allow(dead_code)] pub struct None;  #[derive(::darling::FromTypeParam)] #[darling(attributes(u_attr, my::tool), rename_all = "camelCase")] pub struct R8<T> { pub bounds: crate::ustd::vec::Vec<::darling::export::syn::TypeParamBound>, #[darling(skip)] pub phantom_t: crate::ustd::marker::PhantomData<T> } }
-#[allow(non_camel_case_types, non_snake_case, unused_imports, dead_code)] pub mod m9 { #[allow(dead_code)] pub struct Vec; #[allow(dead_code)] pub struct Option; #[allow(dead_code)] pub struct Result; #[allow(dead_code)] pub struct String; #[allow(dead_code)] pub struct Box; #[allow(dead_code)] pub struct Default; fn fa(a: crate::ustd::vec::Vec<::darling::export::syn::Attribute>) -> ::darling::Result<usize> { ::darling::export::Ok(a.len()) } #[derive(::darling::FromDeriveInput)] #[darling(attributes(u_attr, other), forward_attrs)] pub struct R9<T> { pub ident: ::darling::export::syn::Ident, pub vis: ::darling::export::syn::Visibility, pub data: ::darling::ast::Data<(), ::darling::export::syn::Field>, #[darling(with = fa)] pub attrs: usize, #[darling(multiple)] pub option: crate::ustd::vec::Vec<bool>, pub r#struct: char, #[darling(skip)] pub skip: i64, #[darling(skip)] pub phantom_t: crate::ustd::marker::PhantomData<T> } }
-#[allow(non_camel_case_types, non_snake_case, unused_imports, dead_code)] pub mod m10 {  fn cm(v: R10) -> R10 { v } #[derive(::darling::FromVariant)] #[darling(attributes(u_attr, my::tool), rename_all = "snake_case", map = cm)] pub struct R10 { pub fields: ::darling::ast::Fields<::darling::export::syn::Field>, pub len: ::darling::export::syn::Path } }
-#[allow(non_camel_case_types, non_snake_case, unused_imports, dead_code)] pub mod m11 { #[allow(dead_code)] pub struct Ok; #[allow(dead_code)] pub struct Err; #[allow(dead_code)] pub struct Some; #[allow(dead_code)] pub struct None;  #[derive(::darling::FromField)] #[darling(attributes(u_attr), forward_attrs(), rename_all = "camelCase")] pub struct R11 { pub attrs: crate::ustd::vec::Vec<::darling::export::syn::Attribute> } }
-#[allow(non_camel_case_types, non_snake_case, unused_imports, dead_code)] pub mod m12 { #[allow(unused_macros)] macro_rules! vec { ($($t:tt)*) => { compile_error!("the receiver's own vec! was used") } } #[allow(unused_macros)] macro_rules! format { ($($t:tt)*) => { compile_error!("the receiver's own format! was used") } }  #[derive(::darling::FromMeta)] #[darling(allow_unknown_fields)] pub enum R12 { NameValue { vec: super::m2::R2 }, Option } }
-#[allow(non_camel_case_types, non_snake_case, unused_imports, dead_code)] pub mod m13 { #[allow(dead_code)] pub fn identity() {} #[allow(dead_code)] pub trait FromMeta {} #[allow(dead_code)] pub mod darling {} #[allow(dead_code)] pub mod syn {} #[allow(dead_code)] pub mod core {} #[allow(dead_code)] pub mod std {} #[allow(dead_code)] pub struct Error; #[allow(dead_code)] pub struct Self_;  #[derive(::darling::FromMeta)] #[darling(rename_all = "camelCase")] pub struct R13 { pub variant: crate::ustd::option::Option<u8>, #[darling(flatten)] pub ok: super::m7::R7, #[darling(multiple)] pub count: crate::ustd::vec::Vec<u8> } }
-#[allow(non_camel_case_types, non_snake_case, unused_imports, dead_code)] pub mod m14 { #[allow(unused_macros)] macro_rules! vec { ($($t:tt)*) => { compile_error!("the receiver's own vec! was used") } } #[allow(unused_macros)] macro_rules! format { ($($t:tt)*) => { compile_error!("the receiver's own format! was used") } }  #[derive(::darling::FromMeta)] pub struct R14 { pub value: super::m1::R1, pub struct_data: crate::ustd::option::Option<crate::ustd::string::String>, pub enum_check: ::darling::util::Override<u8>, pub e: ::darling::util::SpannedValue<u8>, #[darling(multiple)] pub struct_check: crate::ustd::vec::Vec<crate::ustd::string::String> } }
-#[allow(non_camel_case_types, non_snake_case, unused_imports, dead_code)] pub mod m15 { #[allow(dead_code)] pub fn identity() {} #[allow(dead_code)] pub trait FromMeta {} #[allow(dead_code)] pub mod darling {} #[allow(dead_code)] pub mod syn {} #[allow(dead_code)] pub mod core {} #[allow(dead_code)] pub mod std {} #[allow(dead_code)] pub struct Error; #[allow(dead_code)] pub struct Self_; fn ca<T>(v: R15<T>) -> ::darling::Result<R15<T>> { ::darling::export::Ok(v) } #[derive(::darling::FromMeta)] #[darling(and_then = ca)] pub struct R15<T> { #[darling(flatten)] pub errors: T, #[darling(multiple)] pub result: crate::ustd::vec::Vec<u8>, #[darling(skip)] pub map: bool, #[darling(skip)] pub field: crate::ustd::marker::PhantomData<T> } }
-#[allow(non_camel_case_types, non_snake_case, unused_imports, dead_code)] pub mod m16 {   #[derive(::darling::FromDeriveInput)] #[darling(attributes(u_attr, other), supports(enum_any), forward_attrs)] pub struct R16 { pub vis: ::darling::export::syn::Visibility, pub generics: ::darling::export::syn::Generics, pub attrs: crate::ustd::vec::Vec<::darling::export::syn::Attribute>, #[darling(rename = "r_field")] pub field: crate::ustd::collections::HashMap<crate::ustd::string::String, u8>, #[darling(flatten)] pub ok: super::m14::R14 } }
-#[allow(non_camel_case_types, non_snake_case, unused_imports, dead_code)] pub mod m17 { #[allow(dead_code)] pub struct Ok; #[allow(dead_code)] pub struct Err; #[allow(dead_code)] pub struct Some; #[allow(dead_code)] pub struct None;  #[derive(::darling::FromTypeParam)] #[darling(attributes(u_attr, other), allow_unknown_fields)] pub struct R17 { pub ident: ::darling::export::syn::Ident, pub bounds: crate::ustd::vec::Vec<::darling::export::syn::TypeParamBound>, pub default: crate::ustd::option::Option<::darling::export::syn::Type>, pub string: crate::ustd::boxed::Box<u8>, #[darling(skip)] pub variant_errors: i64, pub with: crate::ustd::string::String } }
-#[allow(non_camel_case_types, non_snake_case, unused_imports, dead_code)] pub mod m18 {  fn fa(a: crate::ustd::vec::Vec<::darling::export::syn::Attribute>) -> ::darling::Result<usize> { ::darling::export::Ok(a.len()) } #[derive(::darling::FromTypeParam)] #[darling(attributes(u_attr, my::tool), forward_attrs, rename_all = "camelCase")] pub struct R18 { pub ident: ::darling::export::syn::Ident, pub bounds: crate::ustd::vec::Vec<::darling::export::syn::TypeParamBound>, pub default: crate::ustd::option::Option<::darling::export::syn::Type>, #[darling(with = fa)] pub attrs: usize, pub count: super::m14::R14 } }
-#[allow(non_camel_case_types, non_snake_case, unused_imports, dead_code)] pub mod m19 { #[allow(dead_code)] pub struct Ok; #[allow(dead_code)] pub struct Err; #[allow(dead_code)] pub struct Some; #[allow(dead_code)] pub struct None; fn ca(v: R19) -> ::darling::Result<R19> { ::darling::export::Ok(v) } #[derive(::darling::FromAttributes)] #[darling(attributes(u_attr, my::tool), forward_attrs, and_then = ca)] pub struct R19 { pub attrs: crate::ustd::vec::Vec<::darling::export::syn::Attribute>, #[darling(flatten)] pub item: super::m1::R1, pub result: super::m0::R0 } }
-#[allow(non_camel_case_types, non_snake_case, unused_imports, dead_code)] pub mod m20 {  fn ca<T>(v: R20<T>) -> ::darling::Result<R20<T>> { ::darling::export::Ok(v) } #[derive(::darling::FromMeta)] #[darling(and_then = ca)] pub struct R20<T> { #[darling(multiple, rename = "type")] pub flag: crate::ustd::vec::Vec<crate::ustd::string::String>, pub some: T } }
-#[allow(non_camel_case_types, non_snake_case, unused_imports, dead_code)] pub mod m21 { #[allow(dead_code)] pub struct Ok; #[allow(dead_code)] pub struct Err; #[allow(dead_code)] pub struct Some; #[allow(dead_code)] pub struct None;  #[derive(::darling::FromMeta)] pub enum R21 { #[darling(rename = "v_vec")] Vec, Error(::darling::util::SpannedValue<u8>), Some, #[darling(skip)] Err { #[darling(rename = "y-z")] struct_data: ::darling::util::Override<u8>, identity: super::m13::R13 } } }
-#[allow(non_camel_case_types, non_snake_case, unused_imports, dead_code)] pub mod m22 { #[allow(dead_code)] pub struct Vec; #[allow(dead_code)] pub struct Option; #[allow(dead_code)] pub struct Result; #[allow(dead_code)] pub struct String; #[allow(dead_code)] pub struct Box; #[allow(dead_code)] pub struct Default;  #[derive(::darling::FromMeta)] #[darling(allow_unknown_fields)] pub enum R22<T> { Beta, #[darling(rename = "v_word")] Word { #[darling(skip)] phantom_t: crate::ustd::marker::PhantomData<T> }, #[darling(skip)] NameValue(bool) } }
-#[allow(non_camel_case_types, non_snake_case, unused_imports, dead_code)] pub mod m23 { #[allow(dead_code)] pub struct Vec; #[allow(dead_code)] pub struct Option; #[allow(dead_code)] pub struct Result; #[allow(dead_code)] pub struct String; #[allow(dead_code)] pub struct Box; #[allow(dead_code)] pub struct Default;  #[derive(::darling::FromMeta)] pub struct R23<T> { #[darling(skip)] pub errors: crate::ustd::marker::PhantomData<T>, pub len: crate::ustd::option::Option<T> } }
-#[allow(non_camel_case_types, non_snake_case, unused_imports, dead_code)] pub mod m24 { #[allow(dead_code)] pub fn identity() {} #[allow(dead_code)] pub trait FromMeta {} #[allow(dead_code)] pub mod darling {} #[allow(dead_code)] pub mod syn {} #[allow(dead_code)] pub mod core {} #[allow(dead_code)] pub mod std {} #[allow(dead_code)] pub struct Error; #[allow(dead_code)] pub struct Self_;  #[derive(::darling::FromMeta)] #[darling(from_none = || ::darling::export::None)] pub struct R24 { #[darling(flatten)] pub struct_check: super::m7::R7, pub err: super::m2::R2, pub some: super::m13::R13, pub beta: super::m0::R0, pub inner: crate::ustd::option::Option<u8> } }
-#[allow(non_camel_case_types, non_snake_case, unused_imports, dead_code)] pub mod m25 { #[allow(dead_code)] pub fn identity() {} #[allow(dead_code)] pub trait FromMeta {} #[allow(dead_code)] pub mod darling {} #[allow(dead_code)] pub mod syn {} #[allow(dead_code)] pub mod core {} #[allow(dead_code)] pub mod std {} #[allow(dead_code)] pub struct Error; #[allow(dead_code)] pub struct Self_;  #[derive(::darling::FromMeta, Default)] #[darling(default)] pub struct R25 { #[darling(multiple)] pub r#fn: crate::ustd::vec::Vec<crate::ustd::string::String>, pub err: crate::ustd::option::Option<u8> } }
-#[allow(non_camel_case_types, non_snake_case, unused_imports, dead_code)] pub mod m26 { #[allow(dead_code)] pub struct Ok; #[allow(dead_code)] pub struct Err; #[allow(dead_code)] pub struct Some; #[allow(dead_code)] pub struct None;  #[derive(::darling::FromMeta)] pub enum R26 { r#Type, #[darling(skip)] Inner } }
-#[allow(non_camel_case_types, non_snake_case, unused_imports, dead_code)] pub mod m27 {   #[derive(::darling::FromMeta)] pub struct R27 { #[darling(rename = "Q")] pub from_meta: crate::ustd::collections::HashMap<crate::ustd::string::String, u8>, pub flatten: super::m14::R14 } }
-#[allow(non_camel_case_types, non_snake_case, unused_imports, dead_code)] pub mod m28 { #[allow(dead_code)] pub struct Vec; #[allow(dead_code)] pub struct Option; #[allow(dead_code)] pub struct Result; #[allow(dead_code)] pub struct String; #[allow(dead_code)] pub struct Box; #[allow(dead_code)] pub struct Default;  #[derive(::darling::FromMeta)] pub struct R28 { pub struct_data: crate::ustd::collections::HashMap<crate::ustd::string::String, u8> } }
-#[allow(non_camel_case_types, non_snake_case, unused_imports, dead_code)] pub mod m29 { #[allow(dead_code)] pub struct Ok; #[allow(dead_code)] pub struct Err; #[allow(dead_code)] pub struct Some; #[allow(dead_code)] pub struct None;  #[derive(::darling::FromAttributes)] #[darling(attributes(u_attr, my::tool), forward_attrs(), rename_all = "SCREAMING_SNAKE_CASE")] pub struct R29 { pub attrs: crate::ustd::vec::Vec<::darling::export::syn::Attribute> } }
-#[allow(non_camel_case_types, non_snake_case, unused_imports, dead_code)] pub mod m30 { #[allow(dead_code)] pub struct Vec; #[allow(dead_code)] pub struct Option; #[allow(dead_code)] pub struct Result; #[allow(dead_code)] pub struct String; #[allow(dead_code)] pub struct Box; #[allow(dead_code)] pub struct Default;  #[derive(::darling::FromDeriveInput)] #[darling(attributes(u_attr, other), supports(any))] pub struct R30 { pub ident: ::darling::export::syn::Ident, pub vis: ::darling::export::syn::Visibility, pub option: super::m2::R2, #[darling(flatten)] pub darling: super::m13::R13, #[darling(skip)] pub string: u8 } }
-#[allow(non_camel_case_types, non_snake_case, unused_imports, dead_code)] pub mod m31 { #[allow(dead_code)] pub struct Vec; #[allow(dead_code)] pub struct Option; #[allow(dead_code)] pub struct Result; #[allow(dead_code)] pub struct String; #[allow(dead_code)] pub struct Box; #[allow(dead_code)] pub struct Default; fn cm(v: R31) -> R31 { v } #[derive(::darling::FromMeta)] #[darling(map = cm)] pub struct R31 { #[darling(flatten)] pub item: super::m0::R0, pub len: i64, pub field: super::m24::R24, pub skip: crate::ustd::option::Option<u8> } }
-#[allow(non_camel_case_types, non_snake_case, unused_imports, dead_code)] pub mod m32 {  fn fa(a: crate::ustd::vec::Vec<::darling::export::syn::Attribute>) -> ::darling::Result<usize> { ::darling::export::Ok(a.len()) } #[derive(::darling::FromVariant)] #[darling(attributes(u_attr), forward_attrs)] pub struct R32<T> { pub ident: ::darling::export::syn::Ident, pub fields: ::darling::ast::Fields<()>, #[darling(with = fa)] pub attrs: usize, pub fields_: ::darling::export::syn::Path, #[darling(skip)] pub phantom_t: crate::ustd::marker::PhantomData<T> } }
-#[allow(non_camel_case_types, non_snake_case, unused_imports, dead_code)] pub mod m33 {   #[derive(::darling::FromMeta)] pub struct R33 { #[darling(flatten)] pub flatten: super::m28::R28, #[darling(rename = "type")] pub fields_: bool, pub enum_check: super::m27::R27 } }
-#[allow(non_camel_case_types, non_snake_case, unused_imports, dead_code)] pub mod m34 { #[allow(dead_code)] pub struct Vec; #[allow(dead_code)] pub struct Option; #[allow(dead_code)] pub struct Result; #[allow(dead_code)] pub struct String; #[allow(dead_code)] pub struct Box; #[allow(dead_code)] pub struct Default; fn ca(v: R34) -> ::darling::Result<R34> { ::darling::export::Ok(v) } #[derive(::darling::FromMeta)] #[darling(rename_all = "PascalCase", and_then = ca)] pub struct R34 { pub word: super::m28::R28, pub body: super::m14::R14, #[darling(rename = "Q")] pub identity: super::m13::R13, #[darling(rename = "r_item")] pub item: crate::ustd::boxed::Box<u8>, pub result: super::m6::R6 } }
-#[allow(non_camel_case_types, non_snake_case, unused_imports, dead_code)] pub mod m35 {  fn fa(a: crate::ustd::vec::Vec<::darling::export::syn::Attribute>) -> ::darling::Result<usize> { ::darling::export::Ok(a.len()) } #[derive(::darling::FromAttributes)] #[darling(attributes(u_attr, other), forward_attrs(), rename_all = "lowercase")] pub struct R35 { #[darling(with = fa)] pub attrs: usize, pub from_meta: ::darling::export::syn::Path } }
-#[allow(non_camel_case_types, non_snake_case, unused_imports, dead_code)] pub mod m36 {   #[derive(::darling::FromTypeParam)] #[darling(attributes(u_attr), forward_attrs)] pub struct R36 { pub ident: ::darling::export::syn::Ident, pub attrs: crate::ustd::vec::Vec<::darling::export::syn::Attribute> } }
-#[allow(non_camel_case_types, non_snake_case, unused_imports, dead_code)] pub mod m37 { #[allow(dead_code)] pub struct Ok; #[allow(dead_code)] pub struct Err; #[allow(dead_code)] pub struct Some; #[allow(dead_code)] pub struct None;  #[derive(::darling::FromMeta)] pub enum R37 { #[darling(rename = "v_some")] Some { #[darling(rename = "r_skip", default)] skip: crate::ustd::string::String }, Inner, #[darling(rename = "v_list")] List(crate::ustd::option::Option<crate::ustd::string::String>) } }
-#[allow(non_camel_case_types, non_snake_case, unused_imports, dead_code)] pub mod m38 { #[allow(dead_code)] pub struct Ok; #[allow(dead_code)] pub struct Err; #[allow(dead_code)] pub struct Some; #[allow(dead_code)] pub struct None; fn fa(a: crate::ustd::vec::Vec<::darling::export::syn::Attribute>) -> ::darling::Result<usize> { ::darling::export::Ok(a.len()) } #[derive(::darling::FromField)] #[darling(attributes(u_attr, my::tool), forward_attrs(doc, allow))] pub struct R38<T> { pub ident: crate::ustd::option::Option<::darling::export::syn::Ident>, pub ty: ::darling::export::syn::Type, #[darling(with = fa)] pub attrs: usize, pub items: crate::ustd::collections::HashMap<crate::ustd::string::String, u8>, #[darling(multiple)] pub alpha: crate::ustd::vec::Vec<u8>, #[darling(skip)] pub phantom_t: crate::ustd::marker::PhantomData<T> } }
-#[allow(non_camel_case_types, non_snake_case, unused_imports, dead_code)] pub mod m39 {   #[derive(::darling::FromMeta)] #[darling(rename_all = "SCREAMING_SNAKE_CASE")] pub struct R39 { #[darling(flatten)] pub flatten: super::m24::R24 } }
-#[allow(non_camel_case_types, non_snake_case, unused_imports, dead_code)] pub mod m40 { #[allow(dead_code)] pub struct Vec; #[allow(dead_code)] pub struct Option; #[allow(dead_code)] pub struct Result; #[allow(dead_code)] pub struct String; #[allow(dead_code)] pub struct Box; #[allow(dead_code)] pub struct Default;  #[derive(::darling::FromMeta)] pub enum R40<T> { #[darling(word)] NameValue, List, FromMeta, #[darling(skip)] Phantom(crate::ustd::marker::PhantomData<T>) } }
-#[allow(non_camel_case_types, non_snake_case, unused_imports, dead_code)] pub mod m41 { #[allow(dead_code)] pub struct Vec; #[allow(dead_code)] pub struct Option; #[allow(dead_code)] pub struct Result; #[allow(dead_code)] pub struct String; #[allow(dead_code)] pub struct Box; #[allow(dead_code)] pub struct Default;  #[derive(::darling::FromAttributes)] #[darling(attributes(u_attr, other), forward_attrs(doc, allow), allow_unknown_fields)] pub struct R41<T> { pub attrs: crate::ustd::vec::Vec<::darling::export::syn::Attribute>, pub input: crate::ustd::boxed::Box<T>, pub other: super::m0::R0, #[darling(rename = "x")] pub skip: crate::ustd::collections::HashMap<crate::ustd::string::String, u8> } }
-#[allow(non_camel_case_types, non_snake_case, unused_imports, dead_code)] pub mod m42 {   #[derive(::darling::FromMeta)] pub struct R42 { #[darling(flatten)] pub r#type: super::m24::R24 } }
-#[allow(non_camel_case_types, non_snake_case, unused_imports, dead_code)] pub mod m43 { #[allow(unused_macros)] macro_rules! vec { ($($t:tt)*) => { compile_error!("the receiver's own vec! was used") } } #[allow(unused_macros)] macro_rules! format { ($($t:tt)*) => { compile_error!("the receiver's own format! was used") } }  #[derive(::darling::FromTypeParam)] #[darling(attributes(u_attr, my::tool), rename_all = "snake_case")] pub struct R43 { pub ident: ::darling::export::syn::Ident, #[darling(rename = "x")] pub identity: super::m7::R7 } }
-#[allow(non_camel_case_types, non_snake_case, unused_imports, dead_code)] pub mod m44 { #[allow(dead_code)] pub struct Vec; #[allow(dead_code)] pub struct Option; #[allow(dead_code)] pub struct Result; #[allow(dead_code)] pub struct String; #[allow(dead_code)] pub struct Box; #[allow(dead_code)] pub struct Default; fn ca(v: R44) -> ::darling::Result<R44> { ::darling::export::Ok(v) } #[derive(::darling::FromMeta)] #[darling(and_then = ca)] pub struct R44 { #[darling(flatten)] pub darling: super::m5::R5, pub identity: super::m42::R42 } }
-#[allow(non_camel_case_types, non_snake_case, unused_imports, dead_code)] pub mod m45 { #[allow(dead_code)] pub struct Ok; #[allow(dead_code)] pub struct Err; #[allow(dead_code)] pub struct Some; #[allow(dead_code)] pub struct None;  #[derive(::darling::FromTypeParam)] #[darling(attributes(u_attr, other), allow_unknown_fields)] pub struct R45<T> { pub ident: ::darling::export::syn::Ident, pub item: char, #[darling(skip)] pub flag: bool, #[darling(skip)] pub phantom_t: crate::ustd::marker::PhantomData<T> } }
-#[allow(non_camel_case_types, non_snake_case, unused_imports, dead_code)] pub mod m46 {   #[derive(::darling::FromVariant)] #[darling(attributes(u_attr), rename_all = "SCREAMING_SNAKE_CASE")] pub struct R46 { pub ident: ::darling::export::syn::Ident, pub discriminant: crate::ustd::option::Option<::darling::export::syn::Expr> } }
-#[allow(non_camel_case_types, non_snake_case, unused_imports, dead_code)] pub mod m47 {   #[derive(::darling::FromMeta)] pub enum R47 { NameValue { variant: super::m7::R7 }, Unit } }
-#[allow(non_camel_case_types, non_snake_case, unused_imports, dead_code)] pub mod m48 { #[allow(dead_code)] pub fn identity() {} #[allow(dead_code)] pub trait FromMeta {} #[allow(dead_code)] pub mod darling {} #[allow(dead_code)] pub mod syn {} #[allow(dead_code)] pub mod core {} #[allow(dead_code)] pub mod std {} #[allow(dead_code)] pub struct Error; #[allow(dead_code)] pub struct Self_;  #[derive(::darling::FromVariant)] #[darling(attributes(u_attr), supports(unit))] pub struct R48 { pub ident: ::darling::export::syn::Ident, pub discriminant: crate::ustd::option::Option<::darling::export::syn::Expr> } }
-#[allow(non_camel_case_types, non_snake_case, unused_imports, dead_code)] pub mod m49 { #[allow(dead_code)] pub struct Ok; #[allow(dead_code)] pub struct Err; #[allow(dead_code)] pub struct Some; #[allow(dead_code)] pub struct None;  #[derive(::darling::FromMeta)] pub struct R49 { #[darling(flatten)] pub e: super::m6::R6 } }
-#[allow(non_camel_case_types, non_snake_case, unused_imports, dead_code)] pub mod m50 { #[allow(unused_macros)] macro_rules! vec { ($($t:tt)*) => { compile_error!("the receiver's own vec! was used") } } #[allow(unused_macros)] macro_rules! format { ($($t:tt)*) => { compile_error!("the receiver's own format! was used") } } fn ca(v: R50) -> ::darling::Result<R50> { ::darling::export::Ok(v) } #[derive(::darling::FromDeriveInput)] #[darling(attributes(u_attr), and_then = ca)] pub struct R50 { pub ident: ::darling::export::syn::Ident, pub vis: ::darling::export::syn::Visibility, pub generics: ::darling::export::syn::Generics, pub data: ::darling::ast::Data<::darling::export::syn::Ident, ::darling::export::syn::Type>, pub struct_check: ::darling::util::Flag, pub len: super::m2::R2, #[darling(flatten)] pub multiple: super::m39::R39 } }
-#[allow(non_camel_case_types, non_snake_case, unused_imports, dead_code)] pub mod m51 { #[allow(unused_macros)] macro_rules! vec { ($($t:tt)*) => { compile_error!("the receiver's own vec! was used") } } #[allow(unused_macros)] macro_rules! format { ($($t:tt)*) => { compile_error!("the receiver's own format! was used") } }  #[derive(::darling::FromAttributes)] #[darling(attributes(u_attr, other), allow_unknown_fields)] pub struct R51 { #[darling(rename = "x")] pub r#struct: ::darling::util::SpannedValue<u8> } }
-#[allow(non_camel_case_types, non_snake_case, unused_imports, dead_code)] pub mod m52 {  fn fa(a: crate::ustd::vec::Vec<::darling::export::syn::Attribute>) -> ::darling::Result<usize> { ::darling::export::Ok(a.len()) } #[derive(::darling::FromVariant)] #[darling(attributes(u_attr, my::tool), supports(unit), forward_attrs)] pub struct R52 { pub ident: ::darling::export::syn::Ident, #[darling(with = fa)] pub attrs: usize, #[darling(skip)] pub rename: crate::ustd::string::String, #[darling(rename = "Q")] pub inner: crate::ustd::option::Option<u8>, pub multiple: super::m27::R27 } }
-#[allow(non_camel_case_types, non_snake_case, unused_imports, dead_code)] pub mod m53 {   #[derive(::darling::FromMeta)] pub enum R53<T> { #[darling(rename = "v_error")] Error { #[darling(rename = "r_len")] len: ::darling::util::SpannedValue<u8>, #[darling(skip)] phantom_t: crate::ustd::marker::PhantomData<T> }, Item, Err { #[darling(skip)] phantom_t: crate::ustd::marker::PhantomData<T> }, Ok } }
-#[allow(non_camel_case_types, non_snake_case, unused_imports, dead_code)] pub mod m54 { #[allow(unused_macros)] macro_rules! vec { ($($t:tt)*) => { compile_error!("the receiver's own vec! was used") } } #[allow(unused_macros)] macro_rules! format { ($($t:tt)*) => { compile_error!("the receiver's own format! was used") } }  #[derive(::darling::FromMeta)] #[darling(rename_all = "kebab-case", from_word = || ::darling::export::Err(::darling::Error::custom("w")))] pub struct R54 { pub default: super::m42::R42, #[darling(flatten)] pub flag: super::m2::R2, pub rename: ::darling::util::SpannedValue<u8>, #[darling(multiple)] pub flatten: crate::ustd::vec::Vec<u8> } }
-#[allow(non_camel_case_types, non_snake_case, unused_imports, dead_code)] pub mod m55 { #[allow(unused_macros)] macro_rules! vec { ($($t:tt)*) => { compile_error!("the receiver's own vec! was used") } } #[allow(unused_macros)] macro_rules! format { ($($t:tt)*) => { compile_error!("the receiver's own format! was used") } }  #[derive(::darling::FromMeta)] #[darling(rename_all = "SCREAMING_SNAKE_CASE", allow_unknown_fields)] pub struct R55<T> { pub flatten: super::m54::R54, #[darling(multiple)] pub with: crate::ustd::vec::Vec<crate::ustd::string::String>, #[darling(multiple, rename = "Q")] pub inner: crate::ustd::vec::Vec<T>, #[darling(multiple)] pub fields_: crate::ustd::vec::Vec<bool>, pub r#type: ::darling::export::syn::Path } }
-#[allow(non_camel_case_types, non_snake_case, unused_imports, dead_code)] pub mod m56 { #[allow(dead_code)] pub struct Vec; #[allow(dead_code)] pub struct Option; #[allow(dead_code)] pub struct Result; #[allow(dead_code)] pub struct String; #[allow(dead_code)] pub struct Box; #[allow(dead_code)] pub struct Default;  #[derive(::darling::FromAttributes)] #[darling(attributes(u_attr, my::tool), forward_attrs(), rename_all = "SCREAMING_SNAKE_CASE")] pub struct R56 { pub attrs: crate::ustd::vec::Vec<::darling::export::syn::Attribute> } }
-#[allow(non_camel_case_types, non_snake_case, unused_imports, dead_code)] pub mod m57 { #[allow(dead_code)] pub fn identity() {} #[allow(dead_code)] pub trait FromMeta {} #[allow(dead_code)] pub mod darling {} #[allow(dead_code)] pub mod syn {} #[allow(dead_code)] pub mod core {} #[allow(dead_code)] pub mod std {} #[allow(dead_code)] pub struct Error; #[allow(dead_code)] pub struct Self_;  #[derive(::darling::FromMeta)] #[darling(rename_all = "PascalCase")] pub enum R57<T> { #[darling(rename = "v_vec")] Vec, Option { item: super::m2::R2, errors: ::darling::export::syn::Path, #[darling(skip)] phantom_t: crate::ustd::marker::PhantomData<T> } } }
-#[allow(non_camel_case_types, non_snake_case, unused_imports, dead_code)] pub mod m58 { #[allow(dead_code)] pub struct Vec; #[allow(dead_code)] pub struct Option; #[allow(dead_code)] pub struct Result; #[allow(dead_code)] pub struct String; #[allow(dead_code)] pub struct Box; #[allow(dead_code)] pub struct Default; fn ca(v: R58) -> ::darling::Result<R58> { ::darling::export::Ok(v) } #[derive(::darling::FromMeta)] #[darling(and_then = ca)] pub struct R58 { #[darling(multiple)] pub inner: crate::ustd::vec::Vec<u8>, pub none: super::m13::R13 } }
-#[allow(non_camel_case_types, non_snake_case, unused_imports, dead_code)] pub mod m59 {   #[derive(::darling::FromMeta)] #[darling(rename_all = "snake_case", allow_unknown_fields, from_word = || ::darling::export::Err(::darling::Error::custom("w")))] pub struct R59 { #[darling(multiple)] pub struct_data: crate::ustd::vec::Vec<bool>, #[darling(flatten)] pub map: super::m6::R6, pub none: super::m24::R24, pub r#type: super::m58::R58 } }
-#[allow(non_camel_case_types, non_snake_case, unused_imports, dead_code)] pub mod m60 {   #[derive(::darling::FromMeta)] #[darling(rename_all = "PascalCase")] pub enum R60 { Beta, List(bool) } }
-#[allow(non_camel_case_types, non_snake_case, unused_imports, dead_code)] pub mod m61 { #[allow(dead_code)] pub fn identity() {} #[allow(dead_code)] pub trait FromMeta {} #[allow(dead_code)] pub mod darling {} #[allow(dead_code)] pub mod syn {} #[allow(dead_code)] pub mod core {} #[allow(dead_code)] pub mod std {} #[allow(dead_code)] pub struct Error; #[allow(dead_code)] pub struct Self_;  #[derive(::darling::FromField)] #[darling(attributes(u_attr, my::tool))] pub struct R61 { pub identity: super::m5::R5, pub fields_: super::m28::R28, pub val: crate::ustd::collections::HashMap<crate::ustd::string::String, u8> } }
-#[allow(non_camel_case_types, non_snake_case, unused_imports, dead_code)] pub mod m62 { #[allow(dead_code)] pub struct Ok; #[allow(dead_code)] pub struct Err; #[allow(dead_code)] pub struct Some; #[allow(dead_code)] pub struct None;  #[derive(::darling::FromMeta)] pub enum R62 { #[darling(skip)] Item(::darling::export::syn::Path), Result, Inner { #[darling(rename = "x")] struct_check: super::m34::R34, darling: super::m49::R49 } } }
-#[allow(non_camel_case_types, non_snake_case, unused_imports, dead_code)] pub mod m63 {   #[derive(::darling::FromField)] #[darling(attributes(u_attr, other), forward_attrs(doc, allow))] pub struct R63<T> { pub ident: crate::ustd::option::Option<::darling::export::syn::Ident>, pub attrs: crate::ustd::vec::Vec<::darling::export::syn::Attribute>, #[darling(skip)] pub phantom_t: crate::ustd::marker::PhantomData<T> } }
-#[allow(non_camel_case_types, non_snake_case, unused_imports, dead_code)] pub mod m64 { #[allow(dead_code)] pub struct Ok; #[allow(dead_code)] pub struct Err; #[allow(dead_code)] pub struct Some; #[allow(dead_code)] pub struct None;  #[derive(::darling::FromMeta)] #[darling(rename_all = "lowercase")] pub enum R64 { None { #[darling(multiple)] value: crate::ustd::vec::Vec<bool> }, Result { struct_data: super::m27::R27, variant_errors: super::m28::R28 }, r#Type } }
-#[allow(non_camel_case_types, non_snake_case, unused_imports, dead_code)] pub mod m65 {  fn cm(v: R65) -> R65 { v } #[derive(::darling::FromMeta)] #[darling(rename_all = "camelCase", map = cm)] pub struct R65 { pub ok: char } }
-#[allow(non_camel_case_types, non_snake_case, unused_imports, dead_code)] pub mod m66 { #[allow(dead_code)] pub struct Vec; #[allow(dead_code)] pub struct Option; #[allow(dead_code)] pub struct Result; #[allow(dead_code)] pub struct String; #[allow(dead_code)] pub struct Box; #[allow(dead_code)] pub struct Default;  #[derive(::darling::FromVariant)] #[darling(attributes(u_attr), forward_attrs(), rename_all = "lowercase")] pub struct R66 { pub ident: ::darling::export::syn::Ident, pub discriminant: crate::ustd::option::Option<::darling::export::syn::Expr>, pub attrs: crate::ustd::vec::Vec<::darling::export::syn::Attribute> } }
-#[allow(non_camel_case_types, non_snake_case, unused_imports, dead_code)] pub mod m67 { #[allow(unused_macros)] macro_rules! vec { ($($t:tt)*) => { compile_error!("the receiver's own vec! was used") } } #[allow(unused_macros)] macro_rules! format { ($($t:tt)*) => { compile_error!("the receiver's own format! was used") } }  #[derive(::darling::FromMeta)] #[darling(allow_unknown_fields)] pub enum R67<T> { Item(::darling::export::syn::Path), NameValue, #[darling(skip)] List(crate::ustd::option::Option<u8>), #[darling(skip)] Phantom(crate::ustd::marker::PhantomData<T>) } }
-#[allow(non_camel_case_types, non_snake_case, unused_imports, dead_code)] pub mod m68 { #[allow(dead_code)] pub struct Ok; #[allow(dead_code)] pub struct Err; #[allow(dead_code)] pub struct Some; #[allow(dead_code)] pub struct None; fn p_e(v: u8) -> u8 { v } fn cm<T>(v: R68<T>) -> R68<T> { v } #[derive(::darling::FromMeta)] #[darling(rename_all = "camelCase", allow_unknown_fields, map = cm)] pub struct R68<T> { #[darling(map = p_e)] pub e: u8, #[darling(skip)] pub default: crate::ustd::marker::PhantomData<T> } }
-#[allow(non_camel_case_types, non_snake_case, unused_imports, dead_code)] pub mod m69 {   #[derive(::darling::FromMeta)] pub enum R69<T> { Default, #[darling(skip)] Phantom(crate::ustd::marker::PhantomData<T>) } }
-#[allow(non_camel_case_types, non_snake_case, unused_imports, dead_code)] pub mod m70 { #[allow(dead_code)] pub struct Vec; #[allow(dead_code)] pub struct Option; #[allow(dead_code)] pub struct Result; #[allow(dead_code)] pub struct String; #[allow(dead_code)] pub struct Box; #[allow(dead_code)] pub struct Default;  #[derive(::darling::FromDeriveInput)] #[darling(attributes(u_attr))] pub struct R70 { pub ident: ::darling::export::syn::Ident, pub generics: ::darling::ast::Generics<::darling::ast::GenericParam>, pub name: ::darling::export::syn::Path, pub field: super::m42::R42 } }
-#[allow(non_camel_case_types, non_snake_case, unused_imports, dead_code)] pub mod m71 { #[allow(dead_code)] pub struct Vec; #[allow(dead_code)] pub struct Option; #[allow(dead_code)] pub struct Result; #[allow(dead_code)] pub struct String; #[allow(dead_code)] pub struct Box; #[allow(dead_code)] pub struct Default; fn cm<T>(v: R71<T>) -> R71<T> { v } #[derive(::darling::FromMeta)] #[darling(map = cm)] pub struct R71<T> { #[darling(flatten)] pub ok: T, #[darling(rename = "y-z")] pub beta: super::m6::R6, pub val: crate::ustd::boxed::Box<T>, pub rename: crate::ustd::option::Option<T> } }
-#[allow(non_camel_case_types, non_snake_case, unused_imports, dead_code)] pub mod m72 { #[allow(dead_code)] pub struct Ok; #[allow(dead_code)] pub struct Err; #[allow(dead_code)] pub struct Some; #[allow(dead_code)] pub struct None; fn fa(a: crate::ustd::vec::Vec<::darling::export::syn::Attribute>) -> ::darling::Result<usize> { ::darling::export::Ok(a.len()) } #[derive(::darling::FromAttributes)] #[darling(attributes(u_attr), forward_attrs(doc, allow), rename_all = "snake_case")] pub struct R72 { #[darling(with = fa)] pub attrs: usize, pub ok: ::darling::export::syn::Expr, pub name: super::m1::R1 } }
-#[allow(non_camel_case_types, non_snake_case, unused_imports, dead_code)] pub mod m73 { #[allow(dead_code)] pub struct Ok; #[allow(dead_code)] pub struct Err; #[allow(dead_code)] pub struct Some; #[allow(dead_code)] pub struct None; fn ca(v: R73) -> ::darling::Result<R73> { ::darling::export::Ok(v) } #[derive(::darling::FromAttributes)] #[darling(attributes(u_attr), forward_attrs(doc, allow), and_then = ca)] pub struct R73 { pub attrs: crate::ustd::vec::Vec<::darling::export::syn::Attribute> } }
-#[allow(non_camel_case_types, non_snake_case, unused_imports, dead_code)] pub mod m74 {  fn cm(v: R74) -> R74 { v } #[derive(::darling::FromField)] #[darling(attributes(u_attr, my::tool), map = cm)] pub struct R74 { pub ident: crate::ustd::option::Option<::darling::export::syn::Ident>, pub vis: ::darling::export::syn::Visibility, pub input: super::m13::R13, #[darling(rename = "Q")] pub string: super::m0::R0, #[darling(multiple)] pub ok: crate::ustd::vec::Vec<bool> } }
-#[allow(non_camel_case_types, non_snake_case, unused_imports, dead_code)] pub mod m75 { #[allow(dead_code)] pub struct Vec; #[allow(dead_code)] pub struct Option; #[allow(dead_code)] pub struct Result; #[allow(dead_code)] pub struct String; #[allow(dead_code)] pub struct Box; #[allow(dead_code)] pub struct Default;  #[derive(::darling::FromMeta)] #[darling(rename_all = "camelCase")] pub enum R75 { Beta(::darling::util::Flag) } }
-#[allow(non_camel_case_types, non_snake_case, unused_imports, dead_code)] pub mod m76 { #[allow(dead_code)] pub fn identity() {} #[allow(dead_code)] pub trait FromMeta {} #[allow(dead_code)] pub mod darling {} #[allow(dead_code)] pub mod syn {} #[allow(dead_code)] pub mod core {} #[allow(dead_code)] pub mod std {} #[allow(dead_code)] pub struct Error; #[allow(dead_code)] pub struct Self_;  #[derive(::darling::FromMeta)] pub struct R76 { pub option: super::m34::R34, #[darling(rename = "y-z")] pub lit: ::darling::util::SpannedValue<u8>, pub vec: crate::ustd::string::String } }
-#[allow(non_camel_case_types, non_snake_case, unused_imports, dead_code)] pub mod m77 { #[allow(dead_code)] pub struct Ok; #[allow(dead_code)] pub struct Err; #[allow(dead_code)] pub struct Some; #[allow(dead_code)] pub struct None; fn fa(a: crate::ustd::vec::Vec<::darling::export::syn::Attribute>) -> ::darling::Result<usize> { ::darling::export::Ok(a.len()) } #[derive(::darling::FromAttributes)] #[darling(attributes(u_attr, my::tool), forward_attrs, rename_all = "lowercase", allow_unknown_fields)] pub struct R77 { #[darling(with = fa)] pub attrs: usize, #[darling(skip)] pub vec: i64, #[darling(flatten)] pub inner: super::m44::R44, #[darling(multiple)] pub option: crate::ustd::vec::Vec<u8> } }
-#[allow(non_camel_case_types, non_snake_case, unused_imports, dead_code)] pub mod m78 { #[allow(dead_code)] pub fn identity() {} #[allow(dead_code)] pub trait FromMeta {} #[allow(dead_code)] pub mod darling {} #[allow(dead_code)] pub mod syn {} #[allow(dead_code)] pub mod core {} #[allow(dead_code)] pub mod std {} #[allow(dead_code)] pub struct Error; #[allow(dead_code)] pub struct Self_; fn d_map() -> u8 { 7 } #[derive(::darling::FromMeta)] pub enum R78 { List { #[darling(default = d_map)] map: u8, #[darling(skip)] string: i64, #[darling(rename = "y-z")] val: super::m31::R31 }, Rename(i64), Item {  } } }
-#[allow(non_camel_case_types, non_snake_case, unused_imports, dead_code)] pub mod m79 { #[allow(dead_code)] pub struct Ok; #[allow(dead_code)] pub struct Err; #[allow(dead_code)] pub struct Some; #[allow(dead_code)] pub struct None;  #[derive(::darling::FromTypeParam)] #[darling(attributes(u_attr, other), forward_attrs())] pub struct R79 { pub attrs: crate::ustd::vec::Vec<::darling::export::syn::Attribute>, pub skip: i64, pub lit: super::m14::R14, pub errors: super::m44::R44 } }
-#[allow(non_camel_case_types, non_snake_case, unused_imports, dead_code)] pub mod m80 { #[allow(unused_macros)] macro_rules! vec { ($($t:tt)*) => { compile_error!("the receiver's own vec! was used") } } #[allow(unused_macros)] macro_rules! format { ($($t:tt)*) => { compile_error!("the receiver's own format! was used") } }  #[derive(::darling::FromMeta)] pub enum R80 { #[darling(rename = "v_option")] Option, Ok, Beta, Default(i64) } }
-#[allow(non_camel_case_types, non_snake_case, unused_imports, dead_code)] pub mod m81 {  fn cm(v: R81) -> R81 { v } #[derive(::darling::FromMeta)] #[darling(allow_unknown_fields, map = cm)] pub struct R81 { #[darling(flatten)] pub none: super::m28::R28 } }
-#[allow(non_camel_case_types, non_snake_case, unused_imports, dead_code)] pub mod m82 { #[allow(dead_code)] pub fn identity() {} #[allow(dead_code)] pub trait FromMeta {} #[allow(dead_code)] pub mod darling {} #[allow(dead_code)] pub mod syn {} #[allow(dead_code)] pub mod core {} #[allow(dead_code)] pub mod std {} #[allow(dead_code)] pub struct Error; #[allow(dead_code)] pub struct Self_;  #[derive(::darling::FromMeta)] pub struct R82<T> { pub some: super::m6::R6, pub variant: crate::ustd::option::Option<T>, pub identity: T, #[darling(flatten)] pub struct_data: super::m76::R76 } }
-#[allow(non_camel_case_types, non_snake_case, unused_imports, dead_code)] pub mod m83 { #[allow(dead_code)] pub struct Ok; #[allow(dead_code)] pub struct Err; #[allow(dead_code)] pub struct Some; #[allow(dead_code)] pub struct None;  #[derive(::darling::FromMeta)] #[darling(rename_all = "camelCase")] pub enum R83<T> { #[darling(rename = "v_meta")] Meta { #[darling(multiple)] lit: crate::ustd::vec::Vec<bool>, result: super::m42::R42, #[darling(skip)] phantom_t: crate::ustd::marker::PhantomData<T> }, Word } }
-#[allow(non_camel_case_types, non_snake_case, unused_imports, dead_code)] pub mod m84 {   #[derive(::darling::FromAttributes)] #[darling(attributes(u_attr, other), forward_attrs())] pub struct R84 { pub attrs: crate::ustd::vec::Vec<::darling::export::syn::Attribute> } }
-#[allow(non_camel_case_types, non_snake_case, unused_imports, dead_code)] pub mod m85 { #[allow(dead_code)] pub struct Vec; #[allow(dead_code)] pub struct Option; #[allow(dead_code)] pub struct Result; #[allow(dead_code)] pub struct String; #[allow(dead_code)] pub struct Box; #[allow(dead_code)] pub struct Default; fn cm(v: R85) -> R85 { v } #[derive(::darling::FromMeta)] #[darling(rename_all = "lowercase", map = cm)] pub struct R85 { #[darling(rename = "Q")] pub other: ::darling::util::SpannedValue<u8>, pub struct_check: ::darling::export::syn::Expr, #[darling(skip)] pub len: i64 } }
-#[allow(non_camel_case_types, non_snake_case, unused_imports, dead_code)] pub mod m86 { #[allow(dead_code)] pub struct Ok; #[allow(dead_code)] pub struct Err; #[allow(dead_code)] pub struct Some; #[allow(dead_code)] pub struct None;  #[derive(::darling::FromMeta)] #[darling(rename_all = "SCREAMING_SNAKE_CASE")] pub enum R86 { Result(::darling::util::Override<u8>), r#Type(i64) } }
-#[allow(non_camel_case_types, non_snake_case, unused_imports, dead_code)] pub mod m87 { #[allow(dead_code)] pub struct Ok; #[allow(dead_code)] pub struct Err; #[allow(dead_code)] pub struct Some; #[allow(dead_code)] pub struct None;  #[derive(::darling::FromField)] #[darling(attributes(u_attr, my::tool), forward_attrs(doc, allow), rename_all = "kebab-case", allow_unknown_fields)] pub struct R87<T> { pub ident: crate::ustd::option::Option<::darling::export::syn::Ident>, pub vis: ::darling::export::syn::Visibility, pub ty: ::darling::export::syn::Type, pub attrs: crate::ustd::vec::Vec<::darling::export::syn::Attribute>, pub variant: i64, #[darling(skip)] pub phantom_t: crate::ustd::marker::PhantomData<T> } }
-#[allow(non_camel_case_types, non_snake_case, unused_imports, dead_code)] pub mod m88 { #[allow(dead_code)] pub fn identity() {} #[allow(dead_code)] pub trait FromMeta {} #[allow(dead_code)] pub mod darling {} #[allow(dead_code)] pub mod syn {} #[allow(dead_code)] pub mod core {} #[allow(dead_code)] pub mod std {} #[allow(dead_code)] pub struct Error; #[allow(dead_code)] pub struct Self_;  #[derive(::darling::FromMeta)] #[darling(allow_unknown_fields)] pub enum R88 { Option, Unit { variant_errors: super::m0::R0 } } }
-#[allow(non_camel_case_types, non_snake_case, unused_imports, dead_code)] pub mod m89 {   #[derive(::darling::FromMeta)] #[darling(rename_all = "camelCase")] pub struct R89 { pub other: super::m54::R54 } }
-#[allow(non_camel_case_types, non_snake_case, unused_imports, dead_code)] pub mod m90 { #[allow(dead_code)] pub struct Ok; #[allow(dead_code)] pub struct Err; #[allow(dead_code)] pub struct Some; #[allow(dead_code)] pub struct None;  #[derive(::darling::FromMeta, Default)] #[darling(rename_all = "snake_case", default)] pub struct R90<T: crate::ustd::default::Default> { #[darling(skip)] pub supports: crate::ustd::string::String, #[darling(multiple, rename = "y-z")] pub beta: crate::ustd::vec::Vec<bool>, #[darling(skip)] pub phantom_t: crate::ustd::marker::PhantomData<T> } }
-#[allow(non_camel_case_types, non_snake_case, unused_imports, dead_code)] pub mod m91 { #[allow(dead_code)] pub struct Vec; #[allow(dead_code)] pub struct Option; #[allow(dead_code)] pub struct Result; #[allow(dead_code)] pub struct String; #[allow(dead_code)] pub struct Box; #[allow(dead_code)] pub struct Default;  #[derive(::darling::FromMeta)] pub enum R91 { #[darling(rename = "v_item")] Item { string: super::m14::R14, #[darling(rename = "x")] r#fn: super::m6::R6 }, Beta, #[darling(word)] List } }
-#[allow(non_camel_case_types, non_snake_case, unused_imports, dead_code)] pub mod m92 { #[allow(unused_macros)] macro_rules! vec { ($($t:tt)*) => { compile_error!("the receiver's own vec! was used") } } #[allow(unused_macros)] macro_rules! format { ($($t:tt)*) => { compile_error!("the receiver's own format! was used") } } fn ca(v: R92) -> ::darling::Result<R92> { ::darling::export::Ok(v) } #[derive(::darling::FromVariant)] #[darling(attributes(u_attr), forward_attrs(), rename_all = "SCREAMING_SNAKE_CASE", and_then = ca)] pub struct R92 { pub ident: ::darling::export::syn::Ident, pub attrs: crate::ustd::vec::Vec<::darling::export::syn::Attribute>, pub supports: ::darling::util::Flag, pub err: crate::ustd::boxed::Box<u8>, #[darling(rename = "r_len")] pub len: super::m54::R54 } }
-#[allow(non_camel_case_types, non_snake_case, unused_imports, dead_code)] pub mod m93 { #[allow(dead_code)] pub struct Vec; #[allow(dead_code)] pub struct Option; #[allow(dead_code)] pub struct Result; #[allow(dead_code)] pub struct String; #[allow(dead_code)] pub struct Box; #[allow(dead_code)] pub struct Default;  #[derive(::darling::FromMeta)] pub struct R93 { pub input: super::m39::R39, pub some: super::m76::R76, pub r#fn: ::darling::util::Flag, pub items: ::darling::util::Flag } }
-#[allow(non_camel_case_types, non_snake_case, unused_imports, dead_code)] pub mod m94 { #[allow(unused_macros)] macro_rules! vec { ($($t:tt)*) => { compile_error!("the receiver's own vec! was used") } } #[allow(unused_macros)] macro_rules! format { ($($t:tt)*) => { compile_error!("the receiver's own format! was used") } }  #[derive(::darling::FromDeriveInput)] #[darling(attributes(u_attr, other))] pub struct R94 { pub ident: ::darling::export::syn::Ident, #[darling(flatten)] pub fields_: super::m76::R76, pub variant_errors: super::m85::R85, pub vec: super::m24::R24 } }
-#[allow(non_camel_case_types, non_snake_case, unused_imports, dead_code)] pub mod m95 { #[allow(dead_code)] pub fn identity() {} #[allow(dead_code)] pub trait FromMeta {} #[allow(dead_code)] pub mod darling {} #[allow(dead_code)] pub mod syn {} #[allow(dead_code)] pub mod core {} #[allow(dead_code)] pub mod std {} #[allow(dead_code)] pub struct Error; #[allow(dead_code)] pub struct Self_;  #[derive(::darling::FromMeta)] #[darling(rename_all = "SCREAMING_SNAKE_CASE")] pub struct R95 { #[darling(flatten)] pub multiple: super::m1::R1 } }
-#[allow(non_camel_case_types, non_snake_case, unused_imports, dead_code)] pub mod m96 {  fn ca(v: R96) -> ::darling::Result<R96> { ::darling::export::Ok(v) } #[derive(::darling::FromMeta)] #[darling(and_then = ca)] pub struct R96 { #[darling(rename = "r_variant")] pub variant: crate::ustd::boxed::Box<u8>, pub items: super::m93::R93, pub identity: super::m59::R59, #[darling(flatten)] pub rename: super::m6::R6, pub inner: i64 } }
-#[allow(non_camel_case_types, non_snake_case, unused_imports, dead_code)] pub mod m97 { #[allow(dead_code)] pub fn identity() {} #[allow(dead_code)] pub trait FromMeta {} #[allow(dead_code)] pub mod darling {} #[allow(dead_code)] pub mod syn {} #[allow(dead_code)] pub mod core {} #[allow(dead_code)] pub mod std {} #[allow(dead_code)] pub struct Error; #[allow(dead_code)] pub struct Self_; fn cm(v: R97) -> R97 { v } #[derive(::darling::FromMeta)] #[darling(rename_all = "PascalCase", map = cm)] pub struct R97 { pub count: super::m76::R76, #[darling(skip)] pub variant_errors: crate::ustd::string::String, pub identity: super::m39::R39, #[darling(multiple)] pub alpha: crate::ustd::vec::Vec<crate::ustd::string::String> } }
-#[allow(non_camel_case_types, non_snake_case, unused_imports, dead_code)] pub mod m98 { #[allow(dead_code)] pub fn identity() {} #[allow(dead_code)] pub trait FromMeta {} #[allow(dead_code)] pub mod darling {} #[allow(dead_code)] pub mod syn {} #[allow(dead_code)] pub mod core {} #[allow(dead_code)] pub mod std {} #[allow(dead_code)] pub struct Error; #[allow(dead_code)] pub struct Self_;  #[derive(::darling::FromField)] #[darling(attributes(u_attr, other))] pub struct R98 { pub ty: ::darling::export::syn::Type, #[darling(rename = "y-z")] pub body: crate::ustd::option::Option<crate::ustd::string::String>, #[darling(multiple)] pub beta: crate::ustd::vec::Vec<u8>, #[darling(rename = "y-z")] pub darling: crate::ustd::collections::HashMap<crate::ustd::string::String, u8> } }
-#[allow(non_camel_case_types, non_snake_case, unused_imports, dead_code)] pub mod m99 {   #[derive(::darling::FromMeta)] pub struct R99<T> { #[darling(rename = "r_value")] pub value: ::darling::util::Override<u8>, #[darling(skip)] pub phantom_t: crate::ustd::marker::PhantomData<T> } }
-#[allow(non_camel_case_types, non_snake_case, unused_imports, dead_code)] pub mod m100 {   #[derive(::darling::FromField)] #[darling(attributes(u_attr), rename_all = "lowercase", allow_unknown_fields)] pub struct R100 { pub ty: ::darling::export::syn::Type } }
-#[allow(non_camel_case_types, non_snake_case, unused_imports, dead_code)] pub mod m101 { #[allow(dead_code)] pub fn identity() {} #[allow(dead_code)] pub trait FromMeta {} #[allow(dead_code)] pub mod darling {} #[allow(dead_code)] pub mod syn {} #[allow(dead_code)] pub mod core {} #[allow(dead_code)] pub mod std {} #[allow(dead_code)] pub struct Error; #[allow(dead_code)] pub struct Self_;  #[derive(::darling::FromMeta)] #[darling(from_word = || ::darling::export::Err(::darling::Error::custom("w")))] pub struct R101<T> { #[darling(flatten)] pub r#struct: super::m85::R85, pub some: i64, pub fields_: char, #[darling(skip)] pub phantom_t: crate::ustd::marker::PhantomData<T> } }
-#[allow(non_camel_case_types, non_snake_case, unused_imports, dead_code)] pub mod m102 { #[allow(dead_code)] pub struct Ok; #[allow(dead_code)] pub struct Err; #[allow(dead_code)] pub struct Some; #[allow(dead_code)] pub struct None; fn ca<T>(v: R102<T>) -> ::darling::Result<R102<T>> { ::darling::export::Ok(v) } #[derive(::darling::FromMeta)] #[darling(and_then = ca)] pub struct R102<T> { #[darling(flatten)] pub map: super::m93::R93, pub r#struct: crate::ustd::collections::HashMap<crate::ustd::string::String, u8>, #[darling(skip)] pub phantom_t: crate::ustd::marker::PhantomData<T> } }
-#[allow(non_camel_case_types, non_snake_case, unused_imports, dead_code)] pub mod m103 { #[allow(dead_code)] pub struct Vec; #[allow(dead_code)] pub struct Option; #[allow(dead_code)] pub struct Result; #[allow(dead_code)] pub struct String; #[allow(dead_code)] pub struct Box; #[allow(dead_code)] pub struct Default;  #[derive(::darling::FromMeta)] #[darling(from_none = || ::darling::export::None)] pub struct R103 { #[darling(flatten)] pub ok: super::m14::R14, pub from_meta: super::m76::R76, #[darling(rename = "x")] pub input: super::m49::R49 } }
-#[allow(non_camel_case_types, non_snake_case, unused_imports, dead_code)] pub mod m104 {   #[derive(::darling::FromMeta)] pub enum R104 { #[darling(skip)] Beta {  }, #[darling(rename = "v_ok", word)] Ok, Default, Vec } }
-#[allow(non_camel_case_types, non_snake_case, unused_imports, dead_code)] pub mod m105 { #[allow(dead_code)] pub struct Ok; #[allow(dead_code)] pub struct Err; #[allow(dead_code)] pub struct Some; #[allow(dead_code)] pub struct None;  #[derive(::darling::FromMeta)] pub struct R105<T> { #[darling(rename = "r_rename")] pub rename: crate::ustd::option::Option<u8>, #[darling(skip)] pub phantom_t: crate::ustd::marker::PhantomData<T> } }
-#[allow(non_camel_case_types, non_snake_case, unused_imports, dead_code)] pub mod m106 { #[allow(unused_macros)] macro_rules! vec { ($($t:tt)*) => { compile_error!("the receiver's own vec! was used") } } #[allow(unused_macros)] macro_rules! format { ($($t:tt)*) => { compile_error!("the receiver's own format! was used") } } fn cm<T>(v: R106<T>) -> R106<T> { v } #[derive(::darling::FromMeta)] #[darling(map = cm)] pub struct R106<T> { pub body: super::m13::R13, #[darling(multiple, rename = "type")] pub fields_: crate::ustd::vec::Vec<T> } }
-#[allow(non_camel_case_types, non_snake_case, unused_imports, dead_code)] pub mod m107 { #[allow(unused_macros)] macro_rules! vec { ($($t:tt)*) => { compile_error!("the receiver's own vec! was used") } } #[allow(unused_macros)] macro_rules! format { ($($t:tt)*) => { compile_error!("the receiver's own format! was used") } }  #[derive(::darling::FromTypeParam)] #[darling(attributes(u_attr), rename_all = "SCREAMING_SNAKE_CASE")] pub struct R107 { pub ident: ::darling::export::syn::Ident } }
-#[allow(non_camel_case_types, non_snake_case, unused_imports, dead_code)] pub mod m108 { #[allow(dead_code)] pub fn identity() {} #[allow(dead_code)] pub trait FromMeta {} #[allow(dead_code)] pub mod darling {} #[allow(dead_code)] pub mod syn {} #[allow(dead_code)] pub mod core {} #[allow(dead_code)] pub mod std {} #[allow(dead_code)] pub struct Error; #[allow(dead_code)] pub struct Self_;  #[derive(::darling::FromTypeParam)] #[darling(attributes(u_attr))] pub struct R108 { pub default: crate::ustd::option::Option<::darling::export::syn::Type>, pub r#struct: super::m1::R1 } }
-#[allow(non_camel_case_types, non_snake_case, unused_imports, dead_code)] pub mod m109 { #[allow(dead_code)] pub fn identity() {} #[allow(dead_code)] pub trait FromMeta {} #[allow(dead_code)] pub mod darling {} #[allow(dead_code)] pub mod syn {} #[allow(dead_code)] pub mod core {} #[allow(dead_code)] pub mod std {} #[allow(dead_code)] pub struct Error; #[allow(dead_code)] pub struct Self_;  #[derive(::darling::FromMeta)] pub enum R109 { #[darling(skip)] FromMeta { ok: super::m31::R31, fields_: super::m33::R33 } } }
-#[allow(non_camel_case_types, non_snake_case, unused_imports, dead_code)] pub mod m110 {   #[derive(::darling::FromMeta)] pub struct R110<T> { #[darling(multiple)] pub darling: crate::ustd::vec::Vec<u8>, pub name: ::darling::util::SpannedValue<u8>, pub r#match: T, #[darling(flatten)] pub beta: T, #[darling(skip)] pub value: crate::ustd::option::Option<crate::ustd::string::String> } }
-#[allow(non_camel_case_types, non_snake_case, unused_imports, dead_code)] pub mod m111 { #[allow(dead_code)] pub struct Vec; #[allow(dead_code)] pub struct Option; #[allow(dead_code)] pub struct Result; #[allow(dead_code)] pub struct String; #[allow(dead_code)] pub struct Box; #[allow(dead_code)] pub struct Default;  #[derive(::darling::FromMeta)] pub struct R111<T> { pub lit: super::m7::R7, #[darling(skip)] pub phantom_t: crate::ustd::marker::PhantomData<T> } }
-#[allow(non_camel_case_types, non_snake_case, unused_imports, dead_code)] pub mod m112 {   #[derive(::darling::FromMeta)] #[darling(rename_all = "snake_case")] pub enum R112 { #[darling(rename = "v_frommeta", word)] FromMeta } }
-#[allow(non_camel_case_types, non_snake_case, unused_imports, dead_code)] pub mod m113 { #[allow(dead_code)] pub struct Vec; #[allow(dead_code)] pub struct Option; #[allow(dead_code)] pub struct Result; #[allow(dead_code)] pub struct String; #[allow(dead_code)] pub struct Box; #[allow(dead_code)] pub struct Default;  #[derive(::darling::FromMeta)] #[darling(rename_all = "camelCase")] pub struct R113<T> { pub supports: ::darling::util::Override<u8>, pub attributes: crate::ustd::option::Option<T>, pub name: super::m93::R93 } }
-#[allow(non_camel_case_types, non_snake_case, unused_imports, dead_code)] pub mod m114 { #[allow(unused_macros)] macro_rules! vec { ($($t:tt)*) => { compile_error!("the receiver's own vec! was used") } } #[allow(unused_macros)] macro_rules! format { ($($t:tt)*) => { compile_error!("the receiver's own format! was used") } }  #[derive(::darling::FromMeta)] pub struct R114 { #[darling(flatten)] pub variant: super::m81::R81, pub items: super::m96::R96, pub input: crate::ustd::collections::HashMap<crate::ustd::string::String, u8>, pub item: super::m31::R31, pub vec: super::m31::R31 } }
-#[allow(non_camel_case_types, non_snake_case, unused_imports, dead_code)] pub mod m115 { #[allow(dead_code)] pub struct Vec; #[allow(dead_code)] pub struct Option; #[allow(dead_code)] pub struct Result; #[allow(dead_code)] pub struct String; #[allow(dead_code)] pub struct Box; #[allow(dead_code)] pub struct Default;  #[derive(::darling::FromAttributes)] #[darling(attributes(u_attr, other))] pub struct R115 { #[darling(rename = "y-z", default)] pub result: i64, pub beta: super::m97::R97 } }
-#[allow(non_camel_case_types, non_snake_case, unused_imports, dead_code)] pub mod m116 { #[allow(dead_code)] pub struct Vec; #[allow(dead_code)] pub struct Option; #[allow(dead_code)] pub struct Result; #[allow(dead_code)] pub struct String; #[allow(dead_code)] pub struct Box; #[allow(dead_code)] pub struct Default;  #[derive(::darling::FromAttributes)] #[darling(attributes(u_attr, other), allow_unknown_fields)] pub struct R116 { pub from_meta: super::m76::R76, #[darling(flatten)] pub len: super::m27::R27, pub inner: super::m76::R76 } }
-#[allow(non_camel_case_types, non_snake_case, unused_imports, dead_code)] pub mod m117 {   #[derive(::darling::FromMeta)] pub enum R117 { Unit, Err, #[darling(skip)] Option, Inner } }
-#[allow(non_camel_case_types, non_snake_case, unused_imports, dead_code)] pub mod m118 { #[allow(dead_code)] pub struct Vec; #[allow(dead_code)] pub struct Option; #[allow(dead_code)] pub struct Result; #[allow(dead_code)] pub struct String; #[allow(dead_code)] pub struct Box; #[allow(dead_code)] pub struct Default;  #[derive(::darling::FromField)] #[darling(attributes(u_attr, my::tool), rename_all = "snake_case")] pub struct R118 { pub ident: crate::ustd::option::Option<::darling::export::syn::Ident>, pub vis: ::darling::export::syn::Visibility, #[darling(flatten)] pub r#struct: super::m103::R103, #[darling(rename = "Q")] pub string: super::m6::R6 } }
-#[allow(non_camel_case_types, non_snake_case, unused_imports, dead_code)] pub mod m119 { #[allow(unused_macros)] macro_rules! vec { ($($t:tt)*) => { compile_error!("the receiver's own vec! was used") } } #[allow(unused_macros)] macro_rules! format { ($($t:tt)*) => { compile_error!("the receiver's own format! was used") } }  #[derive(::darling::FromMeta)] pub struct R119<T> { #[darling(multiple)] pub rename: crate::ustd::vec::Vec<crate::ustd::string::String>, #[darling(rename = "r_count")] pub count: ::darling::export::syn::Expr, pub option: super::m89::R89, #[darling(skip)] pub phantom_t: crate::ustd::marker::PhantomData<T> } }
-#[allow(non_camel_case_types, non_snake_case, unused_imports, dead_code)] pub mod m120 { #[allow(dead_code)] pub fn identity() {} #[allow(dead_code)] pub trait FromMeta {} #[allow(dead_code)] pub mod darling {} #[allow(dead_code)] pub mod syn {} #[allow(dead_code)] pub mod core {} #[allow(dead_code)] pub mod std {} #[allow(dead_code)] pub struct Error; #[allow(dead_code)] pub struct Self_;  #[derive(::darling::FromMeta)] #[darling(rename_all = "kebab-case", allow_unknown_fields)] pub struct R120 { pub alpha: f64 } }
-#[allow(non_camel_case_types, non_snake_case, unused_imports, dead_code)] pub mod m121 { #[allow(dead_code)] pub struct Ok; #[allow(dead_code)] pub struct Err; #[allow(dead_code)] pub struct Some; #[allow(dead_code)] pub struct None;  #[derive(::darling::FromField)] #[darling(attributes(u_attr, my::tool), rename_all = "snake_case")] pub struct R121 { pub vis: ::darling::export::syn::Visibility, pub variant_errors: ::darling::export::syn::Path, pub inner: super::m93::R93, pub string: crate::ustd::boxed::Box<u8> } }
-#[allow(non_camel_case_types, non_snake_case, unused_imports, dead_code)] pub mod m122 { #[allow(dead_code)] pub struct Vec; #[allow(dead_code)] pub struct Option; #[allow(dead_code)] pub struct Result; #[allow(dead_code)] pub struct String; #[allow(dead_code)] pub struct Box; #[allow(dead_code)] pub struct Default;  #[derive(::darling::FromMeta)] #[darling(rename_all = "snake_case")] pub enum R122<T> { Result(char), Some { r#type: T }, Skip(char) } }
-#[allow(non_camel_case_types, non_snake_case, unused_imports, dead_code)] pub mod m123 { #[allow(dead_code)] pub fn identity() {} #[allow(dead_code)] pub trait FromMeta {} #[allow(dead_code)] pub mod darling {} #[allow(dead_code)] pub mod syn {} #[allow(dead_code)] pub mod core {} #[allow(dead_code)] pub mod std {} #[allow(dead_code)] pub struct Error; #[allow(dead_code)] pub struct Self_;  #[derive(::darling::FromMeta)] #[darling(rename_all = "SCREAMING_SNAKE_CASE")] pub enum R123 { Rename { #[darling(multiple)] name: crate::ustd::vec::Vec<bool> }, #[darling(word)] NameValue } }
-#[allow(non_camel_case_types, non_snake_case, unused_imports, dead_code)] pub mod m124 { #[allow(unused_macros)] macro_rules! vec { ($($t:tt)*) => { compile_error!("the receiver's own vec! was used") } } #[allow(unused_macros)] macro_rules! format { ($($t:tt)*) => { compile_error!("the receiver's own format! was used") } }  #[derive(::darling::FromMeta)] #[darling(allow_unknown_fields)] pub enum R124<T> { Some(crate::ustd::collections::HashMap<crate::ustd::string::String, u8>), #[darling(skip)] Phantom(crate::ustd::marker::PhantomData<T>) } }
-#[allow(non_camel_case_types, non_snake_case, unused_imports, dead_code)] pub mod m125 { #[allow(dead_code)] pub struct Ok; #[allow(dead_code)] pub struct Err; #[allow(dead_code)] pub struct Some; #[allow(dead_code)] pub struct None; fn cm(v: R125) -> R125 { v } #[derive(::darling::FromAttributes)] #[darling(attributes(u_attr), map = cm)] pub struct R125 { pub ok: crate::ustd::collections::HashMap<crate::ustd::string::String, u8> } }
-#[allow(non_camel_case_types, non_snake_case, unused_imports, dead_code)] pub mod m126 { #[allow(dead_code)] pub struct Vec; #[allow(dead_code)] pub struct Option; #[allow(dead_code)] pub struct Result; #[allow(dead_code)] pub struct String; #[allow(dead_code)] pub struct Box; #[allow(dead_code)] pub struct Default;  #[derive(::darling::FromMeta)] pub enum R126 { #[darling(word)] Vec, Inner { variant: super::m5::R5, identity: super::m42::R42 } } }
-#[allow(non_camel_case_types, non_snake_case, unused_imports, dead_code)] pub mod m127 { #[allow(unused_macros)] macro_rules! vec { ($($t:tt)*) => { compile_error!("the receiver's own vec! was used") } } #[allow(unused_macros)] macro_rules! format { ($($t:tt)*) => { compile_error!("the receiver's own format! was used") } }  #[derive(::darling::FromMeta)] #[darling(rename_all = "kebab-case")] pub enum R127 { #[darling(rename = "v_list", skip)] List(crate::ustd::option::Option<crate::ustd::string::String>) } }
-#[allow(non_camel_case_types, non_snake_case, unused_imports, dead_code)] pub mod m128 { #[allow(dead_code)] pub fn identity() {} #[allow(dead_code)] pub trait FromMeta {} #[allow(dead_code)] pub mod darling {} #[allow(dead_code)] pub mod syn {} #[allow(dead_code)] pub mod core {} #[allow(dead_code)] pub mod std {} #[allow(dead_code)] pub struct Error; #[allow(dead_code)] pub struct Self_;  #[derive(::darling::FromMeta)] #[darling(rename_all = "PascalCase", from_word = || ::darling::export::Err(::darling::Error::custom("w")))] pub struct R128 { pub map: super::m76::R76, #[darling(flatten)] pub word: super::m1::R1 } }
-#[allow(non_camel_case_types, non_snake_case, unused_imports, dead_code)] pub mod m129 { #[allow(dead_code)] pub struct Vec; #[allow(dead_code)] pub struct Option; #[allow(dead_code)] pub struct Result; #[allow(dead_code)] pub struct String; #[allow(dead_code)] pub struct Box; #[allow(dead_code)] pub struct Default;  #[derive(::darling::FromVariant)] #[darling(attributes(u_attr, other), forward_attrs)] pub struct R129 { pub fields: ::darling::ast::Fields<::darling::export::syn::Field>, pub attrs: crate::ustd::vec::Vec<::darling::export::syn::Attribute>, pub default: u8 } }
-#[allow(non_camel_case_types, non_snake_case, unused_imports, dead_code)] pub mod m130 { #[allow(dead_code)] pub fn identity() {} #[allow(dead_code)] pub trait FromMeta {} #[allow(dead_code)] pub mod darling {} #[allow(dead_code)] pub mod syn {} #[allow(dead_code)] pub mod core {} #[allow(dead_code)] pub mod std {} #[allow(dead_code)] pub struct Error; #[allow(dead_code)] pub struct Self_; fn cm(v: R130) -> R130 { v } #[derive(::darling::FromTypeParam)] #[darling(attributes(u_attr), map = cm)] pub struct R130 { pub ident: ::darling::export::syn::Ident, pub default: crate::ustd::option::Option<::darling::export::syn::Type>, #[darling(rename = "y-z")] pub inner: super::m5::R5, #[darling(flatten)] pub enum_check: super::m0::R0 } }
-#[allow(non_camel_case_types, non_snake_case, unused_imports, dead_code)] pub mod m131 { #[allow(dead_code)] pub struct Ok; #[allow(dead_code)] pub struct Err; #[allow(dead_code)] pub struct Some; #[allow(dead_code)] pub struct None;  #[derive(::darling::FromMeta)] #[darling(rename_all = "snake_case")] pub struct R131 { #[darling(flatten)] pub word: super::m24::R24, pub from_meta: crate::ustd::string::String, #[darling(rename = "r_e")] pub e: super::m49::R49, pub none: super::m28::R28 } }
-#[allow(non_camel_case_types, non_snake_case, unused_imports, dead_code)] pub mod m132 { #[allow(unused_macros)] macro_rules! vec { ($($t:tt)*) => { compile_error!("the receiver's own vec! was used") } } #[allow(unused_macros)] macro_rules! format { ($($t:tt)*) => { compile_error!("the receiver's own format! was used") } }  #[derive(::darling::FromMeta)] pub struct R132<T> { pub word: T, pub lit: crate::ustd::option::Option<T>, pub r#fn: super::m2::R2, pub err: f64, pub struct_data: char } }
-#[allow(non_camel_case_types, non_snake_case, unused_imports, dead_code)] pub mod m133 {   #[derive(::darling::FromDeriveInput)] #[darling(attributes(u_attr), supports(struct_any, enum_unit), rename_all = "camelCase")] pub struct R133 { pub vis: ::darling::export::syn::Visibility, pub generics: ::darling::ast::Generics<::darling::ast::GenericParam>, pub value: super::m34::R34, pub string: super::m42::R42 } }
-#[allow(non_camel_case_types, non_snake_case, unused_imports, dead_code)] pub mod m134 { #[allow(dead_code)] pub struct Vec; #[allow(dead_code)] pub struct Option; #[allow(dead_code)] pub struct Result; #[allow(dead_code)] pub struct String; #[allow(dead_code)] pub struct Box; #[allow(dead_code)] pub struct Default;  #[derive(::darling::FromMeta)] pub struct R134<T> { pub fields_: i64, #[darling(skip)] pub phantom_t: crate::ustd::marker::PhantomData<T> } }
-#[allow(non_camel_case_types, non_snake_case, unused_imports, dead_code)] pub mod m135 { #[allow(dead_code)] pub fn identity() {} #[allow(dead_code)] pub trait FromMeta {} #[allow(dead_code)] pub mod darling {} #[allow(dead_code)] pub mod syn {} #[allow(dead_code)] pub mod core {} #[allow(dead_code)] pub mod std {} #[allow(dead_code)] pub struct Error; #[allow(dead_code)] pub struct Self_;  #[derive(::darling::FromVariant)] #[darling(attributes(u_attr), rename_all = "snake_case")] pub struct R135 {  } }
-#[allow(non_camel_case_types, non_snake_case, unused_imports, dead_code)] pub mod m136 { #[allow(dead_code)] pub fn identity() {} #[allow(dead_code)] pub trait FromMeta {} #[allow(dead_code)] pub mod darling {} #[allow(dead_code)] pub mod syn {} #[allow(dead_code)] pub mod core {} #[allow(dead_code)] pub mod std {} #[allow(dead_code)] pub struct Error; #[allow(dead_code)] pub struct Self_;  #[derive(::darling::FromVariant)] #[darling(attributes(u_attr), supports(newtype), forward_attrs(), rename_all = "camelCase")] pub struct R136 { pub fields: ::darling::ast::Fields<::darling::export::syn::Field>, pub attrs: crate::ustd::vec::Vec<::darling::export::syn::Attribute>, pub r#fn: ::darling::util::Override<u8> } }
-#[allow(non_camel_case_types, non_snake_case, unused_imports, dead_code)] pub mod m137 { #[allow(dead_code)] pub struct Vec; #[allow(dead_code)] pub struct Option; #[allow(dead_code)] pub struct Result; #[allow(dead_code)] pub struct String; #[allow(dead_code)] pub struct Box; #[allow(dead_code)] pub struct Default;  #[derive(::darling::FromTypeParam)] #[darling(attributes(u_attr, my::tool), forward_attrs)] pub struct R137 { pub ident: ::darling::export::syn::Ident, pub bounds: crate::ustd::vec::Vec<::darling::export::syn::TypeParamBound>, pub default: crate::ustd::option::Option<::darling::export::syn::Type>, pub attrs: crate::ustd::vec::Vec<::darling::export::syn::Attribute>, #[darling(rename = "x")] pub ok: char, #[darling(flatten)] pub from_meta: super::m2::R2 } }
-#[allow(non_camel_case_types, non_snake_case, unused_imports, dead_code)] pub mod m138 { #[allow(dead_code)] pub struct Vec; #[allow(dead_code)] pub struct Option; #[allow(dead_code)] pub struct Result; #[allow(dead_code)] pub struct String; #[allow(dead_code)] pub struct Box; #[allow(dead_code)] pub struct Default;  #[derive(::darling::FromMeta)] pub enum R138 { Result, Option { with: super::m6::R6, len: super::m0::R0 }, Inner { body: super::m33::R33, val: super::m28::R28, #[darling(rename = "r_option")] option: super::m85::R85 } } }
-#[allow(non_camel_case_types, non_snake_case, unused_imports, dead_code)] pub mod m139 { #[allow(dead_code)] pub struct Ok; #[allow(dead_code)] pub struct Err; #[allow(dead_code)] pub struct Some; #[allow(dead_code)] pub struct None;  #[derive(::darling::FromMeta)] #[darling(allow_unknown_fields, from_word = || ::darling::export::Err(::darling::Error::custom("w")))] pub struct R139 { pub identity: super::m28::R28, #[darling(flatten)] pub default: super::m42::R42 } }
-#[allow(non_camel_case_types, non_snake_case, unused_imports, dead_code)] pub mod m140 { #[allow(dead_code)] pub struct Ok; #[allow(dead_code)] pub struct Err; #[allow(dead_code)] pub struct Some; #[allow(dead_code)] pub struct None;  #[derive(::darling::FromMeta)] #[darling(allow_unknown_fields)] pub enum R140<T> { FromMeta, #[darling(word)] Word, Default { #[darling(rename = "y-z")] flatten: super::m34::R34, #[darling(skip)] option: bool, r#match: T } } }
-#[allow(non_camel_case_types, non_snake_case, unused_imports, dead_code)] pub mod m141 { #[allow(dead_code)] pub fn identity() {} #[allow(dead_code)] pub trait FromMeta {} #[allow(dead_code)] pub mod darling {} #[allow(dead_code)] pub mod syn {} #[allow(dead_code)] pub mod core {} #[allow(dead_code)] pub mod std {} #[allow(dead_code)] pub struct Error; #[allow(dead_code)] pub struct Self_; fn fa(a: crate::ustd::vec::Vec<::darling::export::syn::Attribute>) -> ::darling::Result<usize> { ::darling::export::Ok(a.len()) } fn ca(v: R141) -> ::darling::Result<R141> { ::darling::export::Ok(v) } #[derive(::darling::FromAttributes)] #[darling(attributes(u_attr, other), forward_attrs(), and_then = ca)] pub struct R141 { #[darling(with = fa)] pub attrs: usize, #[darling(multiple)] pub variant: crate::ustd::vec::Vec<u8>, #[darling(flatten)] pub none: super::m139::R139, #[darling(rename = "x")] pub vec: super::m31::R31 } }
-#[allow(non_camel_case_types, non_snake_case, unused_imports, dead_code)] pub mod m142 { #[allow(unused_macros)] macro_rules! vec { ($($t:tt)*) => { compile_error!("the receiver's own vec! was used") } } #[allow(unused_macros)] macro_rules! format { ($($t:tt)*) => { compile_error!("the receiver's own format! was used") } }  #[derive(::darling::FromAttributes)] #[darling(attributes(u_attr, my::tool), forward_attrs)] pub struct R142 { pub attrs: crate::ustd::vec::Vec<::darling::export::syn::Attribute>, #[darling(flatten)] pub rename: super::m7::R7 } }
-#[allow(non_camel_case_types, non_snake_case, unused_imports, dead_code)] pub mod m143 { #[allow(unused_macros)] macro_rules! vec { ($($t:tt)*) => { compile_error!("the receiver's own vec! was used") } } #[allow(unused_macros)] macro_rules! format { ($($t:tt)*) => { compile_error!("the receiver's own format! was used") } }  #[derive(::darling::FromMeta)] pub enum R143<T> { None(f64), #[darling(skip)] Phantom(crate::ustd::marker::PhantomData<T>) } }
-#[allow(non_camel_case_types, non_snake_case, unused_imports, dead_code)] pub mod m144 {   #[derive(::darling::FromAttributes)] #[darling(attributes(u_attr, my::tool), forward_attrs)] pub struct R144<T> { pub attrs: crate::ustd::vec::Vec<::darling::export::syn::Attribute>, #[darling(skip)] pub phantom_t: crate::ustd::marker::PhantomData<T> } }
-#[allow(non_camel_case_types, non_snake_case, unused_imports, dead_code)] pub mod m145 { #[allow(unused_macros)] macro_rules! vec { ($($t:tt)*) => { compile_error!("the receiver's own vec! was used") } } #[allow(unused_macros)] macro_rules! format { ($($t:tt)*) => { compile_error!("the receiver's own format! was used") } }  #[derive(::darling::FromMeta)] pub enum R145<T> { #[darling(word)] Result, #[darling(rename = "v_err")] Err(crate::ustd::string::String), List { #[darling(default)] with: crate::ustd::string::String, #[darling(skip)] phantom_t: crate::ustd::marker::PhantomData<T> }, Alpha { #[darling(skip)] phantom_t: crate::ustd::marker::PhantomData<T> } } }
-#[allow(non_camel_case_types, non_snake_case, unused_imports, dead_code)] pub mod m146 { #[allow(unused_macros)] macro_rules! vec { ($($t:tt)*) => { compile_error!("the receiver's own vec! was used") } } #[allow(unused_macros)] macro_rules! format { ($($t:tt)*) => { compile_error!("the receiver's own format! was used") } }  #[derive(::darling::FromMeta)] #[darling(from_none = || ::darling::export::None)] pub struct R146 { pub supports: crate::ustd::collections::HashMap<crate::ustd::string::String, u8>, pub multiple: ::darling::export::syn::Expr } }
-#[allow(non_camel_case_types, non_snake_case, unused_imports, dead_code)] pub mod m147 {   #[derive(::darling::FromMeta)] pub struct R147 { pub err: super::m93::R93 } }
-#[allow(non_camel_case_types, non_snake_case, unused_imports, dead_code)] pub mod m148 { #[allow(dead_code)] pub struct Ok; #[allow(dead_code)] pub struct Err; #[allow(dead_code)] pub struct Some; #[allow(dead_code)] pub struct None; fn cm(v: R148) -> R148 { v } #[derive(::darling::FromMeta)] #[darling(map = cm)] pub struct R148 { #[darling(flatten)] pub r#struct: super::m0::R0, pub other: super::m89::R89, pub val: super::m65::R65, #[darling(skip)] pub alpha: crate::ustd::option::Option<u8> } }
-#[allow(non_camel_case_types, non_snake_case, unused_imports, dead_code)] pub mod m149 {   #[derive(::darling::FromTypeParam)] #[darling(attributes(u_attr, other), rename_all = "SCREAMING_SNAKE_CASE")] pub struct R149 { pub ident: ::darling::export::syn::Ident, pub bounds: crate::ustd::vec::Vec<::darling::export::syn::TypeParamBound>, pub alpha: i64 } }
-#[cfg(feature = "neg1")] pub mod neg1 { #[derive(::darling::FromMeta)] pub struct N { #[darling(with = |m| { let _ = &__errors; <u8 as ::darling::FromMeta>::from_meta(m) })] pub a: u8 } }
-#[cfg(feature = "neg2")] pub mod neg2 { #[derive(::darling::FromMeta)] #[darling(from_word = || { let _ = &__items; ::darling::export::Err(::darling::Error::custom("w")) })] pub struct N { pub a: u8 } }
-#[cfg(feature = "neg3")] pub mod neg3 { #[derive(::darling::FromMeta)] pub struct N { #[darling(with = |m| { a.0 = true; <u8 as ::darling::FromMeta>::from_meta(m) })] pub a: u8 } }
+//! C20: the receivers are generated per run by gen/c20.py into src/generated.rs (not committed).
+include!("generated.rs");
